@@ -64,3 +64,9 @@ func VV(m MaybeFloat) Float {
 //@ func (Dimension).ToValue
 //@   props C17
 //@   inline
+
+// set membership is a map lookup
+//@ func (SetK).Has
+//@   props C04
+//@   nopanic
+//@   inline
